@@ -617,7 +617,9 @@ def take(outname, inname, chunks, index, axis=0):
             }
             return tuple(chunks), graph
 
-        average_chunk_size = int(full_length / len(chunks[axis]))
+        # at least 1: with more chunks than elements (zero-length chunks) the
+        # average is 0, which is not a valid step for the batching below
+        average_chunk_size = max(int(full_length / len(chunks[axis])), 1)
 
         indexer = []
         index = asarray_safe(index, like=index)
